@@ -203,7 +203,7 @@ pub fn gen_ops(rng: &mut Rng, len: usize, exec: &mut dyn FnMut(String) -> String
         // wide branches: capacity > 16 with enough leaves under one branch that it holds more than 16 separators,
         // then every stored key (so every separator value) goes through each kind of call
         (g.exec)("R drop".into());
-        g.cap = [17, 18, 20, 33][g.rng.below(4) as usize];
+        g.cap = [16, 16, 17, 18, 20, 33][g.rng.below(6) as usize];
         g.universe = (g.cap as i64) * 60;
         g.base = 0;
         g.present.clear();
@@ -240,6 +240,21 @@ pub fn gen_ops(rng: &mut Rng, len: usize, exec: &mut dyn FnMut(String) -> String
         }
         (g.exec)("R dump".into());
         (g.exec)("R len".into());
+        // drain most of it from one end (leaf merges, then branch borrows and branch MERGES at this capacity),
+        // looking at the arenas on the way
+        let keys: Vec<i64> = g.present.iter().copied().collect();
+        let from_top = g.rng.chance(50);
+        let n = keys.len() * 4 / 5;
+        for i in 0..n {
+            let k = if from_top { keys[keys.len() - 1 - i] } else { keys[i] };
+            g.remove(k);
+            if i % 16 == 15 {
+                (g.exec)("R dump".into());
+                (g.exec)("R counts".into());
+            }
+        }
+        (g.exec)("R dump".into());
+        (g.exec)("R check".into());
         done = len / 2;
     }
     while done < len {
